@@ -92,6 +92,9 @@ Definition entry (j : json) : json :=
     JObj [("ok", JBool true);
           ("errors", JArr (map jerr (validate_model m)));
           ("errors_fixed", JArr (map jerr (validate_model_fx m)));
+          ("errors_fixed2", JArr (map jerr (validate_model_fx2 m)));
+          ("no_discard_in_continuing",
+           JBool (forallb (fun f => no_discard_in_cont_blockb false (f_body f)) (m_functions m)));
           ("functions", JArr (map (jfn m) (m_functions m)));
           ("entry_points", JArr (map (jep m) (m_entry_points m)));
           ("binding_rule_ok", JBool (binding_rule_okb m));
